@@ -203,6 +203,9 @@ Definition num_eq (a b : num) : bool :=
 (* k1 == k2 for two decoded keys (distinct objects; a list key has become a tuple).
    True == 1 == 1.0, 'a' != b'a', nan != nan, tuples element-wise. *)
 Fixpoint py_eq (a b : value) : bool :=
+  match a, b with
+  | Int x, Int y => (x =? y)%Z              (* the common case first (same result as the general rule) *)
+  | _, _ =>
   match num_of a, num_of b with
   | Some x, Some y => num_eq x y
   | Some _, None | None, Some _ => false
@@ -220,6 +223,7 @@ Fixpoint py_eq (a b : value) : bool :=
              end) l m
       | _, _ => false
       end
+  end
   end.
 
 (* hash(k) succeeds, k being a key after _deep_list_to_tuple: dict and Ext (defines __eq__ without
